@@ -343,11 +343,15 @@ pub fn explore_plans(prop: &'static str, tier: Tier, reporter: &Reporter, ev: &m
         for d in p.depth_by_devs.iter_mut() {
             *d += delta;
         }
+        // histories without scheduling deviations are cheap: one step deeper in the quick tier
+        if tier == Tier::Quick && matches!(prop, "C01" | "C06" | "C08" | "C14" | "C15" | "C16" | "C19" | "C20") {
+            p.depth_by_devs[0] += 1;
+        }
     }
     for p in plans.iter() {
         let params = Params {
             depth_by_devs: p.depth_by_devs.clone(),
-            max_states: if tier == Tier::Quick { 400_000 } else { 6_000_000 },
+            max_states: if tier == Tier::Quick { 2_000_000 } else { 6_000_000 },
             time_cap: per_plan,
             run_closure: true,
         };
